@@ -18,7 +18,7 @@ E1 = {
                                  "CausalInference.is_valid_frontdoor_adjustment_set", "CausalInference.get_all_frontdoor_adjustment_sets"]),
     "C14": (["contracts.c14"], ["BayesianNetwork.to_markov_model", "UndirectedGraph.is_clique", "FactorGraph.to_markov_model"]),
     "C15": (["contracts.c15"], ["BayesianNetwork.add_edge", "BayesianNetwork.remove_node", "BayesianNetwork.copy", "MarkovNetwork.add_edge",
-                                 "DynamicBayesianNetwork.add_edge", "DAG.add_edges_from", "BayesianNetwork.get_cpds", "BayesianNetwork.add_cpds", "BayesianNetwork.remove_cpds", "MarkovNetwork.add_factors", "BayesianNetwork.remove_nodes_from", "ClusterGraph.add_edge", "JunctionTree.add_edge",
+                                 "DynamicBayesianNetwork.add_edge", "DAG.add_edges_from", "BayesianNetwork.get_cpds", "BayesianNetwork.add_cpds", "BayesianNetwork.remove_cpds", "MarkovNetwork.add_factors", "BayesianNetwork.remove_nodes_from", "ClusterGraph.add_edge", "JunctionTree.add_edge", "FactorGraph.add_edge",
                                  # wrapper lemmas: the networkx shortcut the library model takes for these methods is their exact effect
                                  "DAG.add_node", "DAG.add_nodes_from", "DAG.add_edge", "UndirectedGraph.add_node", "UndirectedGraph.add_nodes_from",
                                  "UndirectedGraph.add_edge", "UndirectedGraph.add_edges_from"]),
